@@ -30,7 +30,7 @@ import time
 sys.path.insert(0, os.path.dirname(os.path.abspath(__file__)))
 import _common as C
 import numpy as np
-from c07 import (POLY, CaseTimeout, PairOracle, build_pair, case_key, certificate, enumerate_cases, order_failures, prime,
+from c07 import (POLY, CaseTimeout, clean, PairOracle, build_pair, case_key, certificate, enumerate_cases, order_failures, prime,
                  priming_effective, run_pool, scale_L, set_phase, warm_up, with_timeout, HANG_SECONDS)
 
 
@@ -201,7 +201,8 @@ def main():
         import json
         with open(os.environ["D3VC_DUMP"], "w") as fh:
             json.dump(dict(failures=failures, results=res), fh, default=C._js)
-    failures, keys = order_failures(failures)
+    failures, keys = order_failures(clean(failures))
+    samples = clean(samples)
     fams = {}
     for c in cases:
         fams[c["family"]] = fams.get(c["family"], 0) + 1
@@ -212,7 +213,7 @@ def main():
            "{0,+-.25,+-.5,+-1}*{.5,1}*size; random = uniform rotations, gaussian offsets; sizes {0.5,1,2}, scene scale {0.01,1,100}, origin shift "
            "up to 707; boxgrid = boxes with sizes {0.5,1,2}^3 at offsets {-1,-.5,0,.25,.5,1}^3 (2/3 axis-aligned, 1/3 cube-group rotated); "
            "randhull = gaussian vertex hulls with 8..40 vertices" % (len(cases), C.COLLIDER_TYPES, fams),
-           incomplete=len(cases) - len(res), hung_not_counted=hung_elsewhere, undecided=sum(undec.values()), undecided_by_obligation=undec, status=status, failure_keys=keys,
+           incomplete=len(cases) - len(res), hung_not_counted=clean(hung_elsewhere), undecided=sum(undec.values()), undecided_by_obligation=undec, status=status, failure_keys=keys,
            priming_effective=primed,
            library=os.path.dirname(distance3d.__file__), tier=a.tier, seed=a.seed)
 
